@@ -286,7 +286,8 @@ def canonicalise(tree: ast.AST) -> ast.AST:
       * symmetric comparisons (==, !=, is, is not) have the constant-like operand (literal, UPPER_CASE name) on the right, otherwise the
         textually smaller operand on the left;
       * `if not a: Y else: X` (with a real else, not an elif) is `if a: X else: Y`;
-      * an annotated local assignment `x: T = v` inside a function is `x = v`.
+      * an annotated local assignment `x: T = v` inside a function is `x = v`;
+      * a call-free temporary read only by the next statement is folded into it (see _inline_adjacent_temporaries).
     Positions (lineno / col_offset) are kept."""
     for c in ast.walk(tree):
         if isinstance(c, ast.Compare) and len(c.ops) == 1 and isinstance(c.ops[0], (ast.Eq, ast.NotEq, ast.Is, ast.IsNot)):
@@ -323,8 +324,57 @@ def canonicalise(tree: ast.AST) -> ast.AST:
                 return ast.copy_location(ast.Assign(targets=[node.target], value=node.value), node)
             return node
     T().visit(tree)
+    _inline_adjacent_temporaries(tree)
     ast.fix_missing_locations(tree)
     return tree
+
+
+_PURE_NODES = (ast.Name, ast.Attribute, ast.Subscript, ast.Constant, ast.BinOp, ast.Compare, ast.Tuple, ast.UnaryOp, ast.Slice, ast.expr_context, ast.operator, ast.cmpop,
+               ast.unaryop)
+
+
+def _inline_adjacent_temporaries(tree: ast.AST) -> None:
+    '''`t = <call-free expression>` immediately followed by the only statement that reads `t` (a plain assignment, expression, return or augmented assignment of
+    the same block; `t` bound once in the function) is folded into that statement: the inverse of hoisting an argument into a local.  What a rule sees is then
+    the same whether or not a sub-expression was given a name on the line before.'''
+    for fn in ast.walk(tree):
+        if not isinstance(fn, (ast.FunctionDef, ast.AsyncFunctionDef)):
+            continue
+        stores: tp.Dict[str, int] = {}
+        loads: tp.Dict[str, int] = {}
+        for x in ast.walk(fn):
+            if isinstance(x, ast.Name):
+                d = stores if isinstance(x.ctx, (ast.Store, ast.Del)) else loads
+                d[x.id] = d.get(x.id, 0) + 1
+        params = {a.arg for a in fn.args.posonlyargs + fn.args.args + fn.args.kwonlyargs} | ({fn.args.vararg.arg} if fn.args.vararg else set()) | \
+            ({fn.args.kwarg.arg} if fn.args.kwarg else set())
+        for holder in ast.walk(fn):
+            for field in ('body', 'orelse', 'finalbody'):
+                st = getattr(holder, field, None)
+                if not isinstance(st, list):
+                    continue
+                i = 0
+                while i < len(st) - 1:
+                    a, nxt = st[i], st[i + 1]
+                    if isinstance(a, ast.Assign) and len(a.targets) == 1 and isinstance(a.targets[0], ast.Name) and not isinstance(a.value, ast.Constant) \
+                            and all(isinstance(x, _PURE_NODES) for x in ast.walk(a.value)) and isinstance(nxt, (ast.Assign, ast.Expr, ast.Return, ast.AugAssign)):
+                        t = a.targets[0].id
+                        if t not in params and stores.get(t) == 1 and loads.get(t) == 1:
+                            reads = [x for x in ast.walk(nxt) if isinstance(x, ast.Name) and x.id == t and isinstance(x.ctx, ast.Load)]
+                            scoped = any(isinstance(x, (ast.Lambda, ast.ListComp, ast.SetComp, ast.DictComp, ast.GeneratorExp)) and any(y is reads[0] for y in ast.walk(x))
+                                         for x in ast.walk(nxt)) if reads else True
+                            if len(reads) == 1 and not scoped:
+                                val = a.value
+
+                                class S(ast.NodeTransformer):
+                                    def visit_Name(self, node):
+                                        if node is reads[0]:
+                                            return ast.copy_location(val, node)
+                                        return node
+                                S().visit(nxt)
+                                del st[i]
+                                continue
+                    i += 1
 
 
 class Module:
